@@ -13,6 +13,7 @@ import Qv.Drv.C06
 import Qv.Drv.C04
 import Qv.Drv.C20
 import Qv.Drv.C18
+import Qv.Drv.C17
 /-! Line protocol: `<op> <json>` per line in, one JSON document per line out. -/
 open Lean
 
@@ -43,7 +44,10 @@ def handlers : List (String × (Json → Except String Json)) := [
   ("C20.basis", Qv.Drv.C20.basisJ),
   ("C18.scatter", Qv.Drv.C18.scatterJ),
   ("C18.scatter_mat", Qv.Drv.C18.scatterMatJ),
-  ("C18.constraint", Qv.Drv.C18.constraintJ)
+  ("C18.constraint", Qv.Drv.C18.constraintJ),
+  ("C17.wiener", Qv.Drv.C17.wienerJ),
+  ("C17.coarsen", Qv.Drv.C17.coarsenJ),
+  ("C17.meas", Qv.Drv.C17.measJ)
 ]
 
 def handle (line : String) : String :=
